@@ -19,20 +19,23 @@ for d in sorted(glob.glob(os.path.join(V, "seeded", "C*-*"))):
         if ls:
             first = ls[0][:160].replace("|", "/")
     extra = m.get("caught_by_other", "")
+    if m.get("status") == "neutralised":
+        res = "quiet (correct: neutralised by a later fix, property holds)" if res == "MISSED" else res + " (neutralised change)"
     rows.append((mid, m.get("summary", "")[:150].replace("|", "/"), m.get("needs", "")[:120].replace("|", "/"), res, first, extra))
 out = ["| id | change | needs | own check | first report |", "|---|---|---|---|---|"]
 for r in rows:
     out.append("| %s | %s | %s | %s%s | %s |" % (r[0], r[1], r[2], r[3], (" (" + r[5] + ")") if r[5] else "", r[4]))
 open(os.path.join(V, "seeded", "MATRIX.md"), "w").write("# Seeded changes vs. checks (quick tier)\n\n" + "\n".join(out) + "\n")
 caught = sum(1 for r in rows if r[3] == "caught")
-print("%d/%d caught by the check of their own property" % (caught, len(rows)))
+live = sum(1 for r in rows if "neutralised" not in r[3])
+print("%d/%d caught by the check of their own property" % (caught, live))
 if "--design" in sys.argv:
     p = os.path.join(V, "DESIGN.md")
     s = open(p).read()
     short = ["| id | change (what the sub-agent did) | own check |", "|---|---|---|"]
     for r in rows:
         short.append("| %s | %s | %s%s |" % (r[0], r[1], r[3], (" (" + r[5] + ")") if r[5] else ""))
-    block = "<!-- MATRIX-BEGIN -->\n" + "\n".join(short) + "\n\n%d of %d are caught by the quick check of their own property.\n<!-- MATRIX-END -->" % (caught, len(rows))
+    block = "<!-- MATRIX-BEGIN -->\n" + "\n".join(short) + "\n\n%d of %d property-breaking changes are caught by the quick check of their own property.\n<!-- MATRIX-END -->" % (caught, live)
     if "MATRIX-PLACEHOLDER" in s:
         s = s.replace("MATRIX-PLACEHOLDER", block)
     else:
